@@ -101,7 +101,7 @@ fn c18_scale_division_kilo() {
     scaled_in_bucket::<1>()
 }
 
-// @cell props=C18 tier=thorough kind=attempt timeout=1800 mem=10 cls=N
+// @cell props=C18 tier=thorough kind=attempt timeout=900 mem=10 cls=N
 // @desc values in the giga bucket
 #[kani::proof]
 #[kani::unwind(8)]
@@ -189,7 +189,7 @@ fn truncation<const F: usize>(sig: usize) {
     kani::cover!(int_d == 0 && last > 0);
 }
 
-// @cell props=C18 tier=thorough kind=attempt timeout=2400 mem=28 cls=K
+// @cell props=C18 tier=thorough kind=attempt timeout=600 mem=28 cls=K
 // @desc format_f64 at 4 significant figures on the modelled string "d.dddd" (one integer digit - a lone 0 counts -
 // @desc and four symbolic fraction digits): exactly 3 decimals are kept, by truncation, trailing zeros stripped
 #[kani::proof]
